@@ -185,7 +185,7 @@ def guard_obligation(ctx, col: Collector, rule: str, fi: FuncInfo, name: str,
                      lit_match: Callable[[List[tuple], ast.AST], bool], exc_ids: Iterable[str],
                      protect: Optional[Callable[[Ev], bool]] = None, what: str = '',
                      subst_locals: bool = True, require_loop_over: Optional[str] = None,
-                     mutation_pred: Optional[Callable[[Ev], bool]] = None) -> bool:
+                     mutation_pred: Optional[Callable[[Ev], bool]] = None, when: bool = True) -> bool:
     """A guard = a branch test G such that
          (1) some test in `fi` matches `lit_match` (on the conjuncts of its true-branch term),
          (2) every path on which G is true ends in `raise <one of exc_ids>` and nothing protected
@@ -206,7 +206,7 @@ def guard_obligation(ctx, col: Collector, rule: str, fi: FuncInfo, name: str,
                 stmts_before.append(ev.node)
             if ev.kind == 'test' and id(ev.node) not in gnodes:
                 subst = copy_subst(stmts_before) if subst_locals else None
-                lits = conjuncts(term(ev.node, True, subst))
+                lits = conjuncts(term(ev.node, when, subst))
                 try:
                     if lit_match(lits, ev.node):
                         gnodes[id(ev.node)] = ev.node
@@ -216,6 +216,16 @@ def guard_obligation(ctx, col: Collector, rule: str, fi: FuncInfo, name: str,
         col.bad(rule, cons + ':present', f'{fi.qualname}: no branch test establishes `{what or name}` - the guard is missing '
                 f'(or tests something else)', node=fi.node, file=fi.file)
         return False
+    # several tests may match the literal (e.g. a retry before the final check): the guards are
+    # those whose true branch always raises
+    raising = {}
+    for gid, g in gnodes.items():
+        outcomes = [path[-1].kind == 'raise' for path in paths
+                    if any(ev.kind == 'test' and ev.node is g and ev.outcome is when for ev in path)]
+        if outcomes and all(outcomes):
+            raising[gid] = g
+    if raising:
+        gnodes = raising
     ok_all = True
     col.ok(rule, cons + ':present', f'guard `{what or name}` present: {[norm(g) for g in gnodes.values()]}',
            node=next(iter(gnodes.values())), file=fi.file)
@@ -224,7 +234,7 @@ def guard_obligation(ctx, col: Collector, rule: str, fi: FuncInfo, name: str,
     bad2 = None
     for path in paths:
         for i, ev in enumerate(path):
-            if ev.kind == 'test' and id(ev.node) in gnodes and ev.outcome is True:
+            if ev.kind == 'test' and id(ev.node) in gnodes and ev.outcome is when:
                 n_true += 1
                 last = path[-1]
                 cls = resolve_exc(ctx, fi, last.node.exc) if last.kind == 'raise' and last.node is not None else None
@@ -266,21 +276,41 @@ def guard_obligation(ctx, col: Collector, rule: str, fi: FuncInfo, name: str,
                 col.ok(rule, cons + ':scans', f'check scans all of {require_loop_over}', node=fi.node, file=fi.file)
         n_prot = 0
         bad3 = None
+
+        def prot_node(ev: Ev):
+            return ev.node if ev.node is not None else None
         for path in paths:
             for i, ev in enumerate(path):
                 if protect(ev):
                     n_prot += 1
                     established = False
-                    for ev2 in path[:i]:
-                        if ev2.kind == 'test' and id(ev2.node) in gnodes and ev2.outcome is False and not loops[id(ev2.node)]:
-                            established = True
-                        if ev2.kind == 'iter' and ev2.outcome == 'exit':
-                            for gid, ls in loops.items():
-                                if ls and ev2.node is ls[0]:
+                    pn = prot_node(ev)
+                    for gid, g in gnodes.items():
+                        ls = loops[gid]
+                        # loops of the guard that do not also contain the protected statement
+                        outer = [l for l in ls if pn is None or not node_in(l, pn)]
+                        if not outer:
+                            # same iteration (or no loop): the guard must be false after the last
+                            # entry of its innermost loop before the protected event
+                            start = 0
+                            if ls:
+                                for j in range(i - 1, -1, -1):
+                                    if path[j].kind == 'iter' and path[j].node is ls[-1] and path[j].outcome == 'enter':
+                                        start = j
+                                        break
+                                    if path[j].kind == 'test' and isinstance(ls[-1], ast.While) and path[j].node is ls[-1].test \
+                                            and path[j].outcome is True:
+                                        start = j
+                                        break
+                            for ev2 in path[start:i]:
+                                if ev2.kind == 'test' and ev2.node is g and ev2.outcome is (not when):
                                     established = True
-                        if ev2.kind == 'test' and ev2.outcome is False:
-                            for gid, ls in loops.items():
-                                if ls and isinstance(ls[0], ast.While) and ev2.node is ls[0].test:
+                        else:
+                            lx = outer[0]
+                            for ev2 in path[:i]:
+                                if ev2.kind == 'iter' and ev2.node is lx and ev2.outcome == 'exit':
+                                    established = True
+                                if ev2.kind == 'test' and isinstance(lx, ast.While) and ev2.node is lx.test and ev2.outcome is False:
                                     established = True
                     if not established:
                         bad3 = bad3 or (ev, f'`{norm(ev.node) if ev.node is not None else "normal return"}` is reachable on a path '
@@ -298,6 +328,10 @@ def guard_obligation(ctx, col: Collector, rule: str, fi: FuncInfo, name: str,
             col.ok(rule, cons + ':dominates', f'guard `{what or name}` dominates all {n_prot} protected path positions',
                    node=fi.node, file=fi.file)
     return ok_all
+
+
+def node_in(outer: ast.AST, inner: ast.AST) -> bool:
+    return any(n is inner for n in ast.walk(outer))
 
 
 def is_normal_return(ev: Ev) -> bool:
